@@ -1552,6 +1552,83 @@ pub fn run_c16(tier: &str, seed: u64) -> Report {
     total.require("live-parser parses conform", (nl / 2) as u64);
     total.require("re-registered validators: the last registration runs and is honoured", (nl / 8) as u64);
 
+    // ---- live parsers whose CALL ARGUMENTS change between parses: the same token text is presented to one parser object
+    // under its own key, under another key, under its own key again, after a footer change and after the change is undone;
+    // anything the parser remembers from an earlier, authenticated parse must not let validators run on a later one that
+    // does not authenticate
+    let nk = if thorough { 2400 } else { 320 };
+    let r = parallel(nk, util::threads(), |i, r| {
+        let mut rng = Rng::new(seed, "c16-keys", i as u64);
+        let p = ALL[i % ALL.len()];
+        if p == P::V1P && i % 4 != 0 {
+            return;
+        }
+        if pools.count(p) < 2 {
+            r.inconclusive.push(format!("C16 key-change sessions: only one key for {}", p.name()));
+            return;
+        }
+        let k0 = pools.key(p, i % pools.count(p));
+        let k1 = pools.key(p, (i + 1) % pools.count(p));
+        let (layer, dp) = [(Layer::Generic, false), (Layer::Batteries, false), (Layer::Batteries, true)][(i / ALL.len()) % 3];
+        let mut s = c15_token_claims(&mut rng, false);
+        s.retain(|op| !matches!(op, ClaimOp::Set(c) if c.key() == "exp" || c.key() == "nbf"));
+        s.push(ClaimOp::Set(Claim::Custom("role".into(), json!("admin"))));
+        let sm = model_object(&s);
+        let ia0 = if p.has_assertion() { Some("ia") } else { None };
+        let tok = match generic_seal(p, &k0, &s, Some("ftr"), ia0).0 {
+            Out::Ok(t) => t,
+            o => {
+                r.inconclusive.push(format!("C16 key-change session: could not build the token: {}", o.brief()));
+                return;
+            }
+        };
+        let validators = vec![VSpec { claim: Claim::Custom("role".into(), json!("dummy")), behave: VBehave::AcceptIfEq(json!("admin")), reg: if layer == Layer::Generic && i % 2 == 0 { VReg::ExtendOnly } else { VReg::ValidateClaim }, second: false, odd: 0 }];
+        let cfg = ParserCfg { footer: Some("ftr".into()), assertion: ia0.map(|x| x.to_string()), validators: validators.clone(), default_parser: dp, ..Default::default() };
+        // (step, authentic?, what)
+        let mut plan: Vec<(PStep, Option<bool>, &str)> = vec![
+            (PStep::Parse { token: tok.clone(), key: 0 }, Some(true), "own key"),
+            (PStep::Parse { token: tok.clone(), key: 1 }, Some(false), "the SAME token under another key"),
+            (PStep::Parse { token: tok.clone(), key: 0 }, Some(true), "own key again"),
+            (PStep::SetFooter("other".into()), None, ""),
+            (PStep::Parse { token: tok.clone(), key: 0 }, Some(false), "the SAME token after the expected footer was changed"),
+            (PStep::SetFooter("ftr".into()), None, ""),
+            (PStep::Parse { token: tok.clone(), key: 0 }, Some(true), "own key, footer expectation restored"),
+            (PStep::Parse { token: tok.clone(), key: 1 }, Some(false), "another key again"),
+        ];
+        if p.has_assertion() {
+            plan.push((PStep::SetAssertion("other".into()), None, ""));
+            plan.push((PStep::Parse { token: tok.clone(), key: 0 }, Some(false), "the SAME token after the implicit assertion was changed"));
+            plan.push((PStep::SetAssertion("ia".into()), None, ""));
+            plan.push((PStep::Parse { token: tok.clone(), key: 0 }, Some(true), "own key, assertion restored"));
+        }
+        if i % 3 == 1 {
+            // start with the refused presentation instead
+            plan.swap(0, 1);
+        }
+        let steps: Vec<PStep> = plan.iter().map(|x| x.0.clone()).collect();
+        let outs = session(p, layer != Layer::Generic, &[k0.clone(), k1.clone()], &cfg, &steps);
+        let logs = session_logs_take();
+        let parses: Vec<(bool, &str)> = plan.iter().filter_map(|x| x.1.map(|a| (a, x.2))).collect();
+        if outs.len() != parses.len() || logs.len() != parses.len() {
+            r.inconclusive.push(format!("C16 key-change session on {}: {} outcomes / {} logs for {} parses", p.name(), outs.len(), logs.len(), parses.len()));
+            return;
+        }
+        let tag = format!("{}/{}{}", p.name(), layer.name(), if dp { "-default" } else { "" });
+        for (j, (authentic, what)) in parses.iter().enumerate() {
+            r.evaluations += 1;
+            let c = C16Case { validators_first: false, p, key: k0.clone(), s: s.clone(), validators: validators.clone(), expected: vec![], layer, default_parser: dp, forgery: if *authentic { "authentic".into() } else { format!("not-authentic-for-this-call ({})", what) }, class: "live-parser-arguments-change".into(), raw_payload: None };
+            let replay = json!({"cmd": "C16", "note": "live-parser session (same token text, key / footer / assertion change between parses): re-run the check", "protocol": p.name(), "parser": tag, "token_claims": sm, "presentations": parses.iter().map(|x| x.1).collect::<Vec<_>>(), "parse_number": j + 1});
+            let before = r.violations_total;
+            c16_verdict(&c, &tag, &sm, &outs[j], &logs[j], r, &replay, &format!(" [one parser object, parse #{}: {}]", j + 1, what));
+            if r.violations_total == before {
+                r.count(if *authentic { "argument-change sessions: authentic presentation validated" } else { "argument-change sessions: refused presentation, no validator ran" });
+            }
+        }
+    });
+    total.merge(r);
+    total.require("argument-change sessions: authentic presentation validated", (nk / 2) as u64);
+    total.require("argument-change sessions: refused presentation, no validator ran", (nk / 2) as u64);
+
     // ---- sequences: one parser, authentic and forged tokens interleaved; verdict per parse as for a fresh parser
     let nh = if thorough { 3000 } else { 300 };
     let r = parallel(nh, util::threads(), |i, r| {
